@@ -98,7 +98,7 @@ type observer struct {
 
 func (o *observer) facts(c string) []string {
 	return []string{"rec", fmt.Sprint(o.m.rec(c)), "dir", fmt.Sprint(o.m.dir(c)), "under_rec_root", fmt.Sprint(len(o.m.via(c)) > 0),
-		"impl_both_modes", fmt.Sprint(o.raw.bothModes()[c]), "both_cause", o.bothCause[c]}
+		"impl_both_modes", fmt.Sprint(o.raw.bothModes()[c]), "both_cause", o.bothCause[c], "impl_direct_record", fmt.Sprint(o.raw.hasRecord(c, "direct"))}
 }
 
 func (o *observer) bad(op, mode, c, detail string) {
